@@ -4,6 +4,7 @@ Oracle: the *bare twin* - the same source rendered without the icontract decorat
 (a) callables: kinds x signatures x stacks of 1-3 contract decorators with a foreign functools.wraps decorator in every
 position, all contracts satisfied; (b) classes: styles x invariants x subclass variants, operation scripts."""
 import inspect
+import copy
 import itertools
 import json
 
@@ -303,7 +304,7 @@ def check_callable(item, acc):
 # ---------------------------------------------------------------------------------------------
 # classes
 
-CLASS_STYLES = ["plain", "slots", "dataclass", "namedtuple", "no_init", "user_new", "init_args", "factory_new", "factory_new_init"]
+CLASS_STYLES = ["plain", "slots", "dataclass", "namedtuple", "no_init", "user_new", "init_args", "factory_new", "factory_new_init", "setstate"]
 CHILDREN = [None, "plain_noinit", "plain_init_args", "dbc_noinit", "dbc_init_args", "dbc_new", "plain_new",
             "plain_grandchild", "dbc_grandchild", "plain_mixin_init"]  # constructor inherited by the class that is instantiated
 
@@ -312,7 +313,7 @@ def render_class(style, inv, child, dbc, contracts):
     w = []
     deco = ""
     if contracts:
-        deco = "".join("@icontract.invariant(lambda self: True{})\n".format(
+        deco = "".join("@icontract.invariant(lambda self: self.v is not None{})\n".format(
             {"C": "", "S": ", check_on=icontract.InvariantCheckEvent.SETATTR", "A": ", check_on=icontract.InvariantCheckEvent.ALL"}[c]) for c in inv)
     base = ("icontract.DBC" if contracts else "abc.ABC") if dbc else ""
     bs = "({})".format(base) if base else ""
@@ -337,6 +338,10 @@ def render_class(style, inv, child, dbc, contracts):
         elif style == "user_new":
             w.append("    def __new__(cls, *a, **k):\n        o = super().__new__(cls)\n        o.made = True\n        return o\n"
                      "    def __init__(self):\n        self.v = 1\n")
+        elif style == "setstate":
+            # state restored by __setstate__ on a blank instance (copy, pickle): __setstate__ acts as a constructor
+            w.append("    def __init__(self):\n        self.v = 1\n    def __getstate__(self):\n        return {'v': self.v}\n"
+                     "    def __setstate__(self, state):\n        self.__dict__.update(state)\n")
         elif style in ("factory_new", "factory_new_init"):
             # __new__ is a factory: for kind != 0 it returns an instance of an unrelated class
             w.insert(len(w) - 1, "class Other:\n    v = 'other'\n")
@@ -415,6 +420,8 @@ def class_script(ns, style, child):
         rec("v", lambda: r.v)
         if style not in ("namedtuple",):
             rec("setattr", lambda: setattr(r, "v", 9))
+        rec("copy", lambda: (type(copy.copy(r)) is Root, copy.copy(r).v))
+        rec("deepcopy", lambda: (type(copy.deepcopy(r)) is Root, copy.deepcopy(r).v))
         rec("isinstance", lambda: isinstance(r, Root))
         rec("type", lambda: type(r) is Root)
         if style == "user_new":
@@ -466,7 +473,7 @@ def check_class(item, acc):
     src_c = render_class(style, inv, child, dbc, True)
     if src_b is None:
         return
-    feats = {"family": "class", "style": style, "inv": inv, "child": child, "dbc": dbc,
+    feats = {"family": "class", "style": style, "inv": inv, "child": child, "dbc": dbc, "has_setattr_inv": any(c in "SA" for c in inv),
              "child_has_init_args": bool(child and child.endswith("init_args"))}
     key = json.dumps(item, sort_keys=True)
     nsb = core.fresh_ctx_run(core.load_source, HDR + src_b, "c14cb")
